@@ -102,7 +102,30 @@ func verifiedReaderOnlyReadByRead(c *core.Ctx, rule string) {
 					continue
 				}
 				n++
-				for _, ref := range *u.Referrers() {
+				// the loaded body and its interface conversions
+				alias := map[ssa.Value]bool{u: true}
+				var refs []ssa.Instruction
+				work := []ssa.Value{u}
+				for len(work) > 0 {
+					v := work[0]
+					work = work[1:]
+					for _, ref := range *v.Referrers() {
+						switch x := ref.(type) {
+						case *ssa.ChangeInterface:
+							alias[x] = true
+							work = append(work, x)
+						case *ssa.MakeInterface:
+							alias[x] = true
+							work = append(work, x)
+						case *ssa.ChangeType:
+							alias[x] = true
+							work = append(work, x)
+						default:
+							refs = append(refs, ref)
+						}
+					}
+				}
+				for _, ref := range refs {
 					ci, isCall := ref.(ssa.CallInstruction)
 					if !isCall {
 						continue
@@ -111,17 +134,14 @@ func verifiedReaderOnlyReadByRead(c *core.Ctx, rule string) {
 					owner := outermost(fn)
 					isMeth := owner.Signature.Recv() != nil && structName(owner.Signature.Recv().Type()) == "blobReader"
 					switch {
-					case cc.IsInvoke() && cc.Value == ssa.Value(u) && cc.Method.Name() == "Read":
+					case cc.IsInvoke() && alias[cc.Value] && cc.Method.Name() == "Read":
 						c.Check(isMeth && owner.Name() == "Read", rule, facts.FuncName(fn)+"/body-read", ci.Pos(), "the body is read by blobReader.Read", "the verified reader's underlying body is read outside blobReader.Read: the size/digest check at end of stream is bypassed")
-					case cc.IsInvoke() && cc.Value == ssa.Value(u) && cc.Method.Name() == "Close":
+					case cc.IsInvoke() && alias[cc.Value] && cc.Method.Name() == "Close":
 					default:
 						// handed to some other function (io.Copy, io.ReadAll, ...)
 						passed := false
 						for _, a := range cc.Args {
-							if a == ssa.Value(u) || facts.Resolve(a) == ssa.Value(u) {
-								passed = true
-							}
-							if mi, ok := a.(*ssa.MakeInterface); ok && mi.X == ssa.Value(u) {
+							if alias[a] {
 								passed = true
 							}
 						}
@@ -775,9 +795,13 @@ func memberCallsUseMemberContext(c *core.Ctx, rule string) {
 			if len(args) == 0 || args[0].Type().String() != "context.Context" {
 				continue
 			}
-			// only member calls made from within a callback that is itself given a context
+			// only for methods that hand a context-taking callback to a read helper: then
+			// every member call in the method's literals must use a callback's context
 			hasCtxCallback := false
-			for g := bc.In; g != nil && g != fn; g = g.Parent() {
+			for _, g := range facts.WithAnon(fn) {
+				if g == fn {
+					continue
+				}
 				for _, q := range g.Params {
 					if q.Type().String() == "context.Context" {
 						hasCtxCallback = true
